@@ -1582,3 +1582,29 @@ package rtcp
 //@   ensures[C12] first: result[0] == n.PacketID
 //@   ensures[C12] bits: forall k :: 1 <= k && k < len(result) ==> specBitIndex(n.PacketID, result[k]) < 16 && uint16(n.LostPackets)>>specBitIndex(n.PacketID, result[k])&1 == 1
 //@   ensures[C12] ascending: forall k :: 1 <= k && k+1 < len(result) ==> specBitIndex(n.PacketID, result[k]) < specBitIndex(n.PacketID, result[k+1])
+
+//@ func (c CompoundPacket) CNAME() (result string, err error)
+//@   safety[C11]
+//@   ensures[C11] valid: specCompoundValid(c) ==> err == nil
+//@   ensures[C11] empty: len(c) == 0 ==> err != nil
+//@   loop 1
+//@     invariant 0 <= iter() && iter() <= len(c)-1 && len(c) >= 1
+//@     invariant[C11] specCompoundValid(c) ==> err == nil && specScan(c, 1, len(c)) == specScan(c, 1+iter(), len(c))
+//@     decreases len(c) - 1 - iter()
+//@   loop 2
+//@     invariant 0 <= iter() && iter() <= len(sdes.Chunks) && unchanged(err)
+//@     invariant[C11] !specChunksHaveCNAME(sdes.Chunks, iter())
+//@     decreases len(sdes.Chunks) - iter()
+//@   loop 3
+//@     invariant 0 <= iter() && iter() <= len(c.Items) && unchanged(err)
+//@     invariant[C11] !specItemsHaveCNAME(c.Items, iter())
+//@     decreases len(c.Items) - iter()
+
+//@ func (c CompoundPacket) DestinationSSRC() (result []uint32)
+//@   safety[C10]
+//@   requires[C10] first: len(c) == 0 || isType(c[0], (*SenderReport)(nil)) || isType(c[0], (*ReceiverReport)(nil))
+//@   ensures[C10] empty: len(c) == 0 ==> len(result) == 0
+//@   ensures[C10] sr: len(c) >= 1 && isType(c[0], (*SenderReport)(nil)) ==> len(result) == len(dyn(c[0], (*SenderReport)(nil)).Reports) + 1 && result[len(result)-1] == dyn(c[0], (*SenderReport)(nil)).SSRC
+//@   ensures[C10] srblocks: forall k :: len(c) >= 1 && isType(c[0], (*SenderReport)(nil)) && 0 <= k && k < len(dyn(c[0], (*SenderReport)(nil)).Reports) ==> result[k] == dyn(c[0], (*SenderReport)(nil)).Reports[k].SSRC
+//@   ensures[C10] rr: len(c) >= 1 && isType(c[0], (*ReceiverReport)(nil)) ==> len(result) == len(dyn(c[0], (*ReceiverReport)(nil)).Reports)
+//@   ensures[C10] rrblocks: forall k :: len(c) >= 1 && isType(c[0], (*ReceiverReport)(nil)) && 0 <= k && k < len(dyn(c[0], (*ReceiverReport)(nil)).Reports) ==> result[k] == dyn(c[0], (*ReceiverReport)(nil)).Reports[k].SSRC
